@@ -23,10 +23,18 @@ def two_ready_prefix():
     return [{"a": "connect"}, {"a": "connect"}, {"a": "feed", "c": 1, "ms": [_cer("p1.r1")]}, {"a": "feed", "c": 2, "ms": [_cer("p2.r1")]}]
 
 
+def _two_connections_prefix():
+    from .c09_plan import two_connections_prefix
+    return two_connections_prefix()
+
+
 def enum_plans(tier):
     th = tier == "thorough"
     # two ready connections of two peers; the same hop-by-hop id in flight on both (equal and different end-to-end ids);
     # answers submitted in every order, also twice
     return [dict(cfg="HOLD2", depth=6 if th else 5, maxtime=0, alpha=["req1", "req2"] + (["resub"] if False else []), faults=False, maxconn=2, prefix=two_ready_prefix()),
             # zero is a legal identifier: watchdog and application requests with hop-by-hop = end-to-end = 0
-            dict(cfg="A", depth=5 if th else 4, maxtime=0, alpha=["cerok", "dwr0", "req0"], faults=False, maxconn=1)]
+            dict(cfg="A", depth=5 if th else 4, maxtime=0, alpha=["cerok", "dwr0", "req0"], faults=False, maxconn=1),
+            # a peer with two connections, a request held on the second; connections are lost (either one, both) before the
+            # application answers: whatever is transmitted then must answer a request received on that very connection
+            dict(cfg="HOLD2", depth=4 if th else 3, maxtime=0, alpha=["req2"], faults=True, maxconn=2, prefix=_two_connections_prefix())]
